@@ -62,7 +62,7 @@ JudgeStep(e) ==
           Tag(e.npc = 0 - 1, "Inv.pc:" \o nm) \o
           Tag(e.halt = (IF r.how = "revert" THEN "revert" ELSE "halt"), "Inv.halt:" \o nm) \o
           Tag(e.ret = r.ret, "Inv.ret:" \o nm) \o
-          Tag(e.stack = Rest(st.stack, Pops(op)), "Inv.stack:" \o nm) \o
+          Tag(e.stack = r.st.stack, "Inv.stack:" \o nm) \o
           Tag(ObsMem(e) = r.st.mem, "Inv.mem:" \o nm)
      ELSE Tag(e.stack = r.st.stack, "Inv.stack:" \o nm) \o
           Tag(ObsMem(e) = r.st.mem, "Inv.mem:" \o nm) \o
@@ -103,7 +103,7 @@ Judge(e) ==
     [] e.event \in {"Begin", "End", "Step", "Fault"} -> <<>>
     [] OTHER -> <<"Proj.unknown-event">>
 
-TraceInit == /\ code = <<>> /\ data = <<>> /\ st = InitState /\ status = "run" /\ jumped = FALSE
+TraceInit == /\ code = <<>> /\ data = <<>> /\ st = InitState /\ status = "run" /\ jumped = FALSE /\ ret = <<>>
              /\ l = 1 /\ bad = <<>> /\ live = FALSE
 
 TraceNext ==
@@ -121,7 +121,7 @@ TraceNext ==
              [] e.event \in {"Fault", "End"} /\ e.depth = 1 ->
                   /\ live' = FALSE /\ UNCHANGED <<code, data, st>>
              [] OTHER -> UNCHANGED <<code, data, st, live>>
-        /\ UNCHANGED <<status, jumped>>
+        /\ UNCHANGED <<status, jumped, ret>>
 
 TraceSpec == TraceInit /\ [][TraceNext]_tvars
 
